@@ -152,7 +152,7 @@ def do_append(fs, path, df, op, scheme, partition_on, pf=None):
         if op.get('sort_key') == 'const':
             # a key under which all row groups tie: the (stable) sort the
             # documentation speaks of leaves the order alone
-            extra['sort_key'] = lambda rg: 0
+            extra['sort_key'] = lambda rg: 'k'
         pf.write_row_groups(data, kw.get('row_group_offsets'),
                             compression=kw.get('compression'),
                             stats=kw.get('stats', 'auto'), **extra, **io(fs))
